@@ -445,7 +445,7 @@ def parse_string_or_path(
 
 def is_empty(obj: object) -> bool:
     """Return True if _obj_ is considered empty."""
-    return isinstance(obj, (list, dict, str)) and not obj
+    return isinstance(obj, (list, tuple, dict, str)) and not obj
 
 
 def clamp(n: int, min_value: int, max_value: int) -> int:
